@@ -12,11 +12,13 @@
 (*             answers -- compared as drift only.                          *)
 (* Invariants (MC_HvCommit) state C03 on the algorithm layer.              *)
 (***************************************************************************)
-EXTENDS HeaderVerify
+EXTENDS HeaderVerify, TLC
 
 CONSTANTS MinN, MaxN,      \* validator set sizes (light) / trusted set sizes (trusting)
           MaxL,            \* commit lengths for trusting cases are 1..MaxL
-          Palette          \* voting powers
+          Palette,         \* voting powers
+          Fams,            \* case families to enumerate (subset of AllFams)
+          RMin, RMax, Reps \* random families: Reps cases for each set size in RMin..RMax
 
 VARIABLES phase, out
 vars == <<phase, out>>
@@ -144,14 +146,46 @@ DecideTrustFancy ==
     /\ phase' = "done"
 
 ---------------------------------------------------------------------------
+(* larger sets: TLC draws the powers and the entry kinds at random (one case per initial state) *)
+RPalette == 1..9
+AllKinds == BaseKinds \cup FancyKinds
+
+DecideLightRandom ==
+    /\ phase = "new" /\ out.fam = "light_random"
+    /\ LET n == out.n
+           pw == [i \in 1..n |-> RandomElement(RPalette)]
+           kd == [i \in 1..n |-> IF RandomElement(1..15) = 1 THEN RandomElement(AllKinds)
+                                  ELSE IF RandomElement(1..3) = 1 THEN RandomElement(GoodKinds) ELSE "ok"]
+       IN out' = LightCase(n, pw, kd, IF RandomElement(1..4) = 1 THEN RandomElement(LightMods) ELSE "none")
+    /\ phase' = "done"
+
+DecideTrustRandom ==
+    /\ phase = "new" /\ out.fam = "trust_random"
+    /\ LET m == out.n
+           pw == [i \in 1..m |-> RandomElement(RPalette)]
+           l == RandomElement((m - 2)..(m + 2))
+           es == [i \in 1..l |-> IF RandomElement(1..4) = 1 THEN <<0, "absent">>
+                                  ELSE <<IF RandomElement(1..10) = 1 THEN RandomElement(1..(m + 1)) ELSE HvMin(i, m + 1),
+                                         RandomElement(IF RandomElement(1..15) = 1 THEN AllKinds \ {"absent"} ELSE {"nil", "ok"})>>]
+       IN out' = TrustCase(m, pw, es, IF RandomElement(1..8) = 1 THEN "chainparam" ELSE "none")
+    /\ phase' = "done"
+
+AllFams == {"light_base", "light_fancy", "light_mod", "trust_base", "trust_mod", "trust_fancy",
+            "light_random", "trust_random"}
+ASSUME Fams \subseteq AllFams
+
 Init == /\ phase = "new"
         /\ \E n \in MinN..MaxN :
-              \/ \E pw \in [1..n -> Palette] : \E fam \in {"light_base", "light_fancy", "light_mod"} :
+              \/ \E pw \in [1..n -> Palette] : \E fam \in {"light_base", "light_fancy", "light_mod"} \cap Fams :
                     out = [op |-> "none", fam |-> fam, n |-> n, pw |-> pw]
               \/ \E pw \in {f \in [1..n -> Palette] : Monotone(f, n)} :
-                 \E fam \in {"trust_base", "trust_mod", "trust_fancy"} :
+                 \E fam \in {"trust_base", "trust_mod", "trust_fancy"} \cap Fams :
                     out = [op |-> "none", fam |-> fam, n |-> n, pw |-> pw]
+        \/ /\ phase = "new"
+           /\ \E n \in RMin..RMax : \E r \in 1..Reps : \E fam \in {"light_random", "trust_random"} \cap Fams :
+                    out = [op |-> "none", fam |-> fam, n |-> n, rep |-> r]
 Next == DecideLightBase \/ DecideLightFancy \/ DecideLightMod \/ DecideTrustBase \/ DecideTrustMod \/ DecideTrustFancy
+        \/ DecideLightRandom \/ DecideTrustRandom
 Spec == Init /\ [][Next]_vars
 
 ---------------------------------------------------------------------------
